@@ -88,6 +88,10 @@ pub enum Node {
     Scope {
         id: u32,
         body: Vec<Node>,
+        /// `Some(k)`: built with `Scope::new_with` and the harness' k-th state-init / merge pair
+        /// (the init puts a value into the child, the merge copies it into the parent)
+        #[serde(default)]
+        hooks: Option<u8>,
     },
     Logger {
         id: u32,
@@ -348,6 +352,41 @@ impl Condition<EP> for Spy {
     }
 }
 
+thread_local! {
+    /// the run context the plain-`fn` scope hooks report to (they cannot capture anything)
+    static HOOK_SHARED: std::cell::RefCell<Option<Arc<Shared>>> = const { std::cell::RefCell::new(None) };
+}
+
+pub const HOOK_INIT_ID: u32 = 10_000;
+pub const HOOK_MERGE_ID: u32 = 20_000;
+
+fn hook_enter(id: u32, phase: Phase) -> ExecResult<()> {
+    let sh = HOOK_SHARED.with(|h| h.borrow().clone());
+    match sh {
+        Some(sh) => sh.enter(id, phase),
+        None => Ok(()),
+    }
+}
+
+fn scope_init<const K: u8>(state: &mut State<EP>) -> ExecResult<()> {
+    hook_enter(HOOK_INIT_ID + K as u32, Phase::Init)?;
+    state.insert(T5(500 + K as u32));
+    Ok(())
+}
+
+fn scope_merge<const K: u8>(parent: &mut State<EP>, child: State<EP>) -> ExecResult<()> {
+    hook_enter(HOOK_MERGE_ID + K as u32, Phase::Exec)?;
+    if let Ok(v) = child.try_get_value::<T5>() {
+        parent.insert(T4(v));
+    }
+    Ok(())
+}
+
+type InitFn = fn(&mut State<EP>) -> ExecResult<()>;
+type MergeFn = fn(&mut State<EP>, State<EP>) -> ExecResult<()>;
+const INIT_FNS: [InitFn; 8] = [scope_init::<0>, scope_init::<1>, scope_init::<2>, scope_init::<3>, scope_init::<4>, scope_init::<5>, scope_init::<6>, scope_init::<7>];
+const MERGE_FNS: [MergeFn; 8] = [scope_merge::<0>, scope_merge::<1>, scope_merge::<2>, scope_merge::<3>, scope_merge::<4>, scope_merge::<5>, scope_merge::<6>, scope_merge::<7>];
+
 pub fn build_cond(c: &Cond, sh: &Arc<Shared>) -> Box<dyn Condition<EP>> {
     let spy = |id: u32, inner: Box<dyn Condition<EP>>, progress_of: Option<u8>| -> Box<dyn Condition<EP>> {
         Box::new(Spy { id, inner, progress_of, sh: sh.clone() })
@@ -440,7 +479,11 @@ pub fn build_nodes(
                 ),
                 None => b.if_(build_cond(cond, sh), |bb| build_nodes(then, sh, bb)),
             },
-            Node::Scope { body, .. } => b.scope_(|bb| build_nodes(body, sh, bb)),
+            Node::Scope { body, hooks: None, .. } => b.scope_(|bb| build_nodes(body, sh, bb)),
+            Node::Scope { body, hooks: Some(k), .. } => {
+                let inner = build_nodes(body, sh, Configuration::builder()).build_component();
+                b.do_(mahf::components::Scope::new_with(INIT_FNS[*k as usize % 8], inner, MERGE_FNS[*k as usize % 8]))
+            }
             Node::Logger { .. } => b.do_(Logger::new()),
         };
     }
@@ -767,20 +810,32 @@ impl<'p> Interp<'p> {
                         self.exec_nodes(e)?;
                     }
                 }
-                Node::Scope { body, .. } => {
+                Node::Scope { body, hooks, .. } => {
                     self.model.scopes.push(BTreeMap::new());
                     self.scope_depth += 1;
                     if self.scope_depth >= 2 {
                         self.probe("scope nesting >= 2");
                     }
                     let r = (|| {
+                        if let Some(k) = hooks {
+                            self.enter(HOOK_INIT_ID + (*k % 8) as u32, Phase::Init)?;
+                            self.model.top().insert(5, 500 + (*k % 8) as u64);
+                        }
                         self.init_nodes(body)?;
                         self.require_nodes(body)?;
                         self.exec_nodes(body)
                     })();
                     self.scope_depth -= 1;
-                    self.model.scopes.pop();
+                    let child = self.model.scopes.pop().unwrap();
+                    // the first error is returned with the scope closed; nothing is merged
                     r?;
+                    if let Some(k) = hooks {
+                        self.probe("scope with state-init and merge hooks");
+                        self.enter(HOOK_MERGE_ID + (*k % 8) as u32, Phase::Exec)?;
+                        if let Some(v) = child.get(&5) {
+                            self.model.top().insert(4, *v);
+                        }
+                    }
                 }
                 Node::Logger { .. } => {
                     self.steps += 1;
@@ -971,7 +1026,9 @@ pub fn run_real(p: &Program, fault: Option<Fault>, snaps: bool, clone_config: bo
     }
     let config = build_config(p, &sh);
     let config = if clone_config { config.clone() } else { config };
+    HOOK_SHARED.with(|h| *h.borrow_mut() = Some(sh.clone()));
     let r = crate::framework::guarded(|| config.run(&EP, &mut state));
+    HOOK_SHARED.with(|h| *h.borrow_mut() = None);
     let (end, panic) = match r {
         Ok(Ok(())) => (RunEnd::Ok, None),
         Ok(Err(e)) => (classify_error(&e), None),
@@ -1134,10 +1191,15 @@ pub fn shrink_nodes(nodes: &[Node]) -> Vec<Vec<Node>> {
                     out.push(v);
                 }
             }
-            Node::Scope { id, body } => {
+            Node::Scope { id, body, hooks } => {
                 for s in shrink_nodes(body) {
                     let mut v = nodes.to_vec();
-                    v[i] = Node::Scope { id: *id, body: s };
+                    v[i] = Node::Scope { id: *id, body: s, hooks: *hooks };
+                    out.push(v);
+                }
+                if hooks.is_some() {
+                    let mut v = nodes.to_vec();
+                    v[i] = Node::Scope { id: *id, body: body.clone(), hooks: None };
                     out.push(v);
                 }
             }
